@@ -11,8 +11,12 @@ prop("C05",
                 "crash_restart_safe + restart_establishes_agree (structural invariant after restart from ANY state and crash "
                 "point); fact_* (store-before-memory, lock modes, rollback shape, reserved-label check regenerated from /repo). "
                 "Counter theorems on the pre-fix shapes selected by the regenerated facts: stale_unassign_event_counter, "
-                "rollback_delete_fault_counter; admin_recreate_race_counter shows the environment assumption is needed. IPAM "
-                "level only: the pod-level clause (every existing pod keeps its IP after restart + resync) is model M4's.",
+                "rollback_delete_fault_counter; admin_recreate_race_counter shows the environment assumption is needed. "
+                "Pod level (second sentence of the property, plugin model M4): pod_crash_restart_resync_safe (every reachable "
+                "plugin state, every move, every crash point (k API calls, j provider requests), restart + one resync: coherent "
+                "tables, every live bound pod still owns each handed address, store = memory) and "
+                "pod_crash_restart_resync_no_leak (records naming gone pods obey the documented release policy) restate "
+                "Galaxy.Plugin.crash_restart_resync_safe / crash_restart_resync_no_orphan.",
      level_note="Full on the model. Only assumption: EnvOK — the administrator does not create a reservation for an address while "
                 "a watch event for that address is still undelivered (otherwise a stale add event overwrites what IPAM wrote: "
                 "counter theorem). Both defects this check found (late delete event of a re-used reserved address; ignored "
@@ -20,10 +24,13 @@ prop("C05",
      technique="Lean 4 theorems over an executable model + regenerated structural facts (factgen ipam) + differential "
                "correspondence of every step (result class, choices, full memory/store/pending dump) of the REAL crdIpam on a "
                "fault-injecting clientset decorator, with every fault index and crash point of every operation enumerated "
-               "from the same prefix; monitor = memory (ByPrefix) vs FloatingIP list vs freshly started crdIpam",
-     factgen=["ipam"],
-     drivers=["ipam"],
-     trusted=["tools/factgen/cmd/ipam: syntactic extraction of guard/lock/rollback shapes (no aliasing analysis)",
+               "from the same prefix; monitor = memory (ByPrefix) vs FloatingIP list vs freshly started crdIpam; plus the "
+               "pod-level crash sweep on the real scheduler plugin (plugin.RunCrashSweep: die before external call k, restart, "
+               "resync, monitors, comparison with the model's crashAt)",
+     factgen=["ipam", "plugin"],
+     drivers=["ipam", "plugin"],
+     trusted=["tools/factgen/cmd/plugin + harness/plugin: see C04 (fake clientsets, decorator, controlled listers)",
+              "tools/factgen/cmd/ipam: syntactic extraction of guard/lock/rollback shapes (no aliasing analysis)",
               "harness/ipam: client-go fake CRD clientset stands in for the API server (create of an existing name fails, "
               "get/update/delete of a missing name fail); watch events of labelled objects are delivered by the harness "
               "through the handler crdIpam registered on a captured informer"],
